@@ -2,8 +2,11 @@
 import json
 
 import nodeops
+import searches
 
-REGISTRY = {'C01': nodeops, 'C02': nodeops, 'C03': nodeops}
+REGISTRY = {'C01': nodeops, 'C02': nodeops, 'C03': nodeops,
+            'C04': searches, 'C05': searches, 'C06': searches, 'C07': searches, 'C09': searches, 'C10': searches}
+EVALUATE = {nodeops: nodeops.evaluate_ctx, searches: searches.evaluate}
 
 
 def replay(prop, path):
@@ -12,7 +15,9 @@ def replay(prop, path):
     d = json.load(open(path))
     native = runner.Native(hooks=getattr(REGISTRY[prop], 'HOOKS', False))
     obs = native.run([d['scenario']])[0]
-    bad = REGISTRY[prop].evaluate_native(prop)({'scen': d['scenario']}, obs)
+    import scheck
+    mod = REGISTRY[prop]
+    bad = scheck.native_evaluator(prop, EVALUATE[mod])({'scen': d['scenario']}, obs)
     print(json.dumps({'native_observations': obs, 'failures': bad}, indent=1))
     if bad:
         print(f'VIOLATION property={prop} replay={path}')
